@@ -7,7 +7,7 @@ R-ZOOM       set_zoom_min empties exactly the levels below the minimum, set_zoom
 R-BUILD-ERR  no panic-capable site reachable from the pipeline factory depends on an argument value: invalid arguments
              surface as Err when the pipeline is built.
 """
-from . import census, ir
+from . import census, comp, ir
 from .report import m_drop_stmt, m_replace
 
 META = {
@@ -54,6 +54,7 @@ def rules(ck, P):
         if not ck.anchor("R-FILTER", short + " methods", [x for x in (gtd, gts) if x] + builds, 3):
             continue
         bld = builds[0]
+        comp.stage_installed(ck, "R-FILTER", short, bld)
         # ---- (i) build: which calls touch the pyramid of the stored parameters
         st = [n for n in ir.walk_nodes(bld["body"]) if n.get("k") == "struct" and n.get("q") == adt]
         if not st:
@@ -120,6 +121,7 @@ def rules(ck, P):
         else:
             ck.check(not other_mut, "R-FILTER", short + "|stream-unchanged", "non-narrowing operation forwards the box unchanged", "box is modified: %s" % other_mut, ir.loc(gts))
 
+    comp.levels_rule(ck, P, "R-ZOOM", ("set_zoom_min", "set_zoom_max", "intersect_geo_bbox", "intersect"))
     # ---------------- R-ZOOM
     for fn, op in (("set_zoom_min", "<"), ("set_zoom_max", ">")):
         bs = [b for b in P.bodies if b["q"].endswith("TileBBoxPyramid::" + fn)]
